@@ -119,6 +119,8 @@ def handler : Driver.Handler := fun c i => do
     ++ (if injKind != "" then [s!"inject-{injKind}"] else []) ++ (if !encAgree then ["encoder-mismatch"] else [])
     ++ (if ops.any (fun o => match o with | .remove _ => true | _ => false) then ["has-remove"] else [])
     ++ (if ops.any (fun o => o == .rewriteManifests) then ["has-rewrite"] else [])
+    ++ (if (c.getObjValAs? Bool "ml_counts").toOption.getD false then ["mlist:counts"] else ["mlist:v1"])
+    ++ (if (c.getObjValAs? Bool "forced_remove_append").toOption.getD false then ["remove-then-append"] else [])
   pure { model := model.toJson, k := (impl == model) && encAgree, oracle := o,
          nt := ops.length ≥ 2 && (match impl with | .ok .. => true | _ => false), tags := tags }
 
